@@ -33,6 +33,8 @@ func runC06(c *core.Ctx) {
 	c.Doc("C06.who-authenticates", "closed list of SetAuthenticated callers and state-key writers, each guarded", 6)
 	c.Doc("C06.client-map", "client capability map only looked up for user/token; server map never written from it", 4)
 	c.Doc("C06.per-connection", "per-connection channel gets a fresh DefaultCap() map", 3)
+	c.Doc("C06.state-guarded", "the authentication state of a connection is read and written under a mutex of its channel (written by the authentication service's goroutine, read by the connection's)", 2)
+	ruleAuthStateGuarded(c, core.NewLockCache(), "C06.state-guarded")
 
 	firewall := c.Func("bus", "", "firewall")
 	routerRecv := c.Func("bus", "Router", "Receive")
